@@ -62,7 +62,7 @@ def classes_for(form, flex):
 
 @st.composite
 def case_strategy(draw, tier="quick"):
-    fam = draw(st.sampled_from(["data"] * 7 + ["wait_all", "fill_var_rec", "safe_meta", "varn_scalar"]))
+    fam = draw(st.sampled_from(["data"] * 6 + ["wait_all", "fill_var_rec", "safe_meta", "safe_meta", "safe_meta", "varn_scalar"]))
     k = draw(st.sampled_from([2, 2, 3, 4]))
     safe = G.chance(draw, 20)
     aggr = draw(st.sampled_from([0, 0, 0, 1, 2]))
@@ -84,7 +84,8 @@ def case_strategy(draw, tier="quick"):
     elif fam == "safe_meta":
         case["safe"] = True
         case["what"] = draw(st.sampled_from(["def_dim_len", "def_dim_name", "def_var_type", "def_var_dims", "put_att_val", "put_att_len",
-                                             "rename_var", "rename_dim", "enddef_args", "set_fill", "def_var_fill", "consistent"]))
+                                             "rename_var", "rename_dim", "enddef_args", "set_fill", "def_var_fill", "consistent",
+                                             "rename_dim_same", "rename_var_same", "rename_att_same", "def_dim_same_name_diff_len"]))
         case["odd"] = draw(st.integers(1, k - 1))
     elif fam == "varn_scalar":
         case["kind"] = draw(st.sampled_from(["put", "get"]))
@@ -115,6 +116,7 @@ def setup(p, case):
     p.op("def_var", step=True, f="f0", name=hx("rec2"), xt=M.NC_DOUBLE, dims=[0, 1], ndims=2)
     p.op("def_var", step=True, f="f0", name=hx("sca"), xt=M.NC_INT, dims=[], ndims=0)
     p.op("def_var_fill", step=True, f="f0", v=V_REC2, nofill=0)     # fill_var_rec needs a variable in fill mode
+    p.op("put_att", step=True, f="f0", v=-1, name=hx("ga"), xt=M.NC_INT, mt="int", n=1, hex=struct.pack("i", 7))
 
 
 def row_vals(r, tag):
@@ -448,6 +450,15 @@ def build_safe_meta(p, case, info):
             p.s.op("rename_var", ranks=[r], sn=sn, step=True, f="f0", v=V_FIX, name=hx("fiy" if o else "fiz"))
         elif what == "rename_dim":
             p.s.op("rename_dim", ranks=[r], sn=sn, step=True, f="f0", v=1, name=hx("xa" if o else "xb"))
+        elif what == "rename_dim_same":
+            # the odd rank passes the name the dimension already has (a no-op for it), the others a new name
+            p.s.op("rename_dim", ranks=[r], sn=sn, step=True, f="f0", v=1, name=hx("x" if o else "xb"))
+        elif what == "rename_var_same":
+            p.s.op("rename_var", ranks=[r], sn=sn, step=True, f="f0", v=V_FIX, name=hx("fix" if o else "fiz"))
+        elif what == "rename_att_same":
+            p.s.op("rename_att", ranks=[r], sn=sn, step=True, f="f0", v=-1, name=hx("ga"), newname=hx("ga" if o else "gb"))
+        elif what == "def_dim_same_name_diff_len":
+            p.s.op("def_dim", ranks=[r], sn=sn, step=True, f="f0", name=hx("z"), len=5 if o else 6)
         elif what == "enddef_args":
             p.s.op("_enddef", ranks=[r], sn=sn, step=True, f="f0", h_minfree=64 if o else 0, v_align=4, v_minfree=0, r_align=4)
         elif what == "set_fill":
